@@ -162,7 +162,7 @@ def run(ctx):
     MJG = dict(FREE=1, BALL=2, SLIDE=4, TENDON=32, ACTUATOR=64, ACTDYN=128, LIMIT=1024, SPRING=4096, MULTITREE=32768, SITE=65536, GRAVCOMP=1 << 18)
     base = MJG["ACTUATOR"]
     req = []
-    nmod = 260 if big else 45
+    nmod = 260 if big else 35
     for k in range(nmod):
         feat = base
         for nm in ("FREE", "BALL", "SLIDE", "TENDON", "ACTDYN", "LIMIT", "SPRING", "MULTITREE", "GRAVCOMP"):
@@ -171,7 +171,7 @@ def run(ctx):
         req.append(("M", rng.randrange(1, 10 ** 6), feat, rng.randint(1, 6), k))
     # muscle functions
     fcases = []
-    nf = 500 if big else 80
+    nf = 500 if big else 60
 
     def rprm():
         return [rng.uniform(0.5, 0.9), rng.uniform(1.0, 1.4), rng.choice([-1.0, rng.uniform(0.5, 80)]), rng.uniform(50, 400), rng.uniform(0.2, 0.8),
